@@ -239,7 +239,9 @@ def collect(
         )
     )
     new._cache.derived_from = table._cache.derived_from | {new._ast}
-    new._cache.partition_by = [preprocess_arg(col, new) for col in table._cache.partition_by]
+    if table._cache.partition_by:
+        # restore the grouping state (the UUIDs of the columns are preserved)
+        new = new >> group_by(*(new._cache.cols[uid] for uid in table._cache.partition_by))
 
     return new
 
